@@ -31,7 +31,7 @@ REQUIRED_CELLS = {'quick': ['op:vle.TP', 'op:vle.TV', 'op:vle.TH', 'op:vle.TS', 
                             'op:vle.Tx', 'op:vle.Ty', 'op:vle.Px', 'op:vle.Py', 'op:lle', 'op:sle', 'op:vlle', 'op:vlle-ctor',
                             'op:mix_vle', 'has:light', 'has:heavy', 'has:extra-rows', 'step>0',
                             'vedge:PV:V=1:heavy', 'vedge:PV:V=0:heavy', 'vedge:TV:V=1:heavy', 'vedge:TV:V=0:heavy',
-                            'vedge:PV:V=1:noheavy', 'vedge:TV:V=0:noheavy'],
+                            'vedge:PV:V=1:noheavy', 'vedge:TV:V=0:noheavy', 'vlle:start-with-L'],
                   'thorough': []}
 
 T_MIN, T_MAX = 250.0, 500.0
@@ -125,7 +125,7 @@ def rows_for(th, name, phases):
     return out
 
 
-def draw_container(ch, th, flows, tag='', allow_extra=True, kinds=('M', 'M', 'S')):
+def draw_container(ch, th, flows, tag='', allow_extra=True, kinds=('M', 'M', 'S'), extras=('s', 'L')):
     """Build a Stream / MultiStream holding ``flows`` with a freely drawn distribution over admissible rows."""
     kind = ch.choice(tag + 'kind', list(kinds))
     T0 = ch.float(tag + 'T0', 280.0, 450.0)
@@ -138,7 +138,7 @@ def draw_container(ch, th, flows, tag='', allow_extra=True, kinds=('M', 'M', 'S'
         for k, v in flows.items(): arr[chems.index(k)] = v
         s = tmo.Stream(None, flow=arr, phase=phase, T=T0, P=P0, thermo=th)
         return s, dict(kind='S', phases=[phase], nrows=1)
-    extra = ch.subset(tag + 'extra', ['s', 'L'], 0, 2) if allow_extra else []
+    extra = ch.subset(tag + 'extra', list(extras), 0, len(extras)) if allow_extra else []
     order = ch.permutation(tag + 'order', 2 + len(extra))
     phases = [(['g', 'l'] + list(extra))[i] for i in order]
     s = tmo.MultiStream(None, phases=tuple(phases), T=T0, P=P0, thermo=th)
@@ -504,9 +504,17 @@ def prop_vlle(ch, ctx):
         check_state(ctx, box['s'], arr, 'vlle-ctor', region, True)
         s = box['s']
     else:
-        s, info = draw_container(ch, th, flows, allow_extra=False)
+        # material may already sit in the second liquid row L (vlle pools L into l before it starts), and vlle may be
+        # called again on its own three-phase result
+        s, info = draw_container(ch, th, flows, extras=('L',))
+        if 'L' in info['phases'] and dense(s)[list(phases_of(s)).index('L')].any(): ctx.cell('vlle:start-with-L')
         ok, key = op_vlle(ch, ctx, th, s, 0, 's0.')
         if not ok: ctx.reject('documented rejection')
+        if ch.choice('again', [False, True, True]):
+            ctx.cell('step>0')
+            a = dense(s)
+            if 'L' in phases_of(s) and a[list(phases_of(s)).index('L')].any(): ctx.cell('vlle:again-with-L')
+            ok, key = op_vlle(ch, ctx, th, s, 1, 's1.')
     ctx.nontriv(['vlle', pid, sorted(flows), ctor, list(phases_of(s))])
 
 
